@@ -164,8 +164,16 @@ def run_cases(drv, cases, sc, tag, nshards=None):
 
     def one(it):
         cfp, tr, n = it
+
+        def lim():
+            # a header that makes the parser spin must not hang the check: CPU limit far above the normal cost of a shard (seconds)
+            import resource
+            resource.setrlimit(resource.RLIMIT_CPU, (150, 155))
         with open(tr, "w") as out:
-            p = subprocess.run([drv, cfp], stdout=out, stderr=subprocess.PIPE, env=V.run_env())
+            try:
+                p = subprocess.run([drv, cfp], stdout=out, stderr=subprocess.PIPE, env=V.run_env(), preexec_fn=lim, timeout=1800)
+            except subprocess.TimeoutExpired:
+                p = subprocess.CompletedProcess([drv, cfp], -9, b"", b"TIMEOUT: header_drv did not finish")
         return cfp, tr, n, p
     with cf.ThreadPoolExecutor(max_workers=V.NCPU) as ex:
         return list(ex.map(one, items))
